@@ -260,14 +260,25 @@ def run_C20(tier, seed):
     rng = random.Random(seed)
     n_inst = 10 if tier == "quick" else 60
     lengths = [3, 12, 101, 120] if tier == "quick" else [1, 2, 9, 10, 11, 99, 100, 101, 120, 250]
-    res.bound = {"charts": "%d random schedules (<=4 jobs x <=4 ops x <=3 machines, complete and partial, with and without "
+    res.bound = {"charts": "2 fixed schedules with flexible operations on a later alternative + %d random schedules (<=4 jobs x "
+                           "<=4 ops x <=3 machines, two thirds flexible, complete and partial, with and without "
                            "xlim), artists of the returned Axes inspected (seed %d)" % (n_inst, seed),
                  "frames": "histories of length %s: frame files written by the real create_gantt_chart_frames with a "
                            "recording plot function, loaded by the real _load_images" % lengths}
-    for _ in range(n_inst):
-        jobs = random_instance(rng, 4, 4, 3, durations=(1, 2, 3, 7), flexible=rng.random() < 0.3)
+    # (two fixed charts first: flexible operations scheduled on an alternative that is NOT the first one they list)
+    fixed = [([[((0, 1), 2), ((1,), 1)], [((2, 0), 3), ((1, 2), 2)]], [(0, 1), (1, 0), (0, 1), (1, 2)]),
+             ([[((1, 0), 3)], [((0,), 2), ((2, 1, 0), 4)]], [(1, 0), (0, 0), (1, 1)])]
+    for case in range(n_inst + len(fixed)):
+        if case < len(fixed):
+            from .common import Model
+            jobs, hist = fixed[case]
+            model = Model(jobs)
+            for mv in hist:
+                model.apply(*mv)
+        else:
+            jobs = random_instance(rng, 4, 4, 3, durations=(1, 2, 3, 7), flexible=(case % 3 != 0))
+            model = random_history(jobs, rng, length=rng.choice([None, None, 1, 3]))
         inst = build_instance(jobs)
-        model = random_history(jobs, rng, length=rng.choice([None, None, 1, 3]))
         d = Dispatcher(inst)
         replay(d, inst, model.history)
         # no limit, a limit beyond the makespan, and a requested limit BELOW the makespan (the axis must end there)
